@@ -506,6 +506,22 @@ impl<C: Suite> Model for MTS<C> {
                 // a proof stamped in the future is rejected when a window is given
                 let r = with_env(vec![], Some(t0 - 1), || <C as BlsSignatureProof>::verify_timestamp_proof(tu, tv, pk, tt, Some(10), msg, dst));
                 o.expect(&format!("{}:trait-verify_timestamp_proof-future:{}", p, g), matches!(&r, Ok(Err(_))), "reject", verdict(&r));
+                // the proof objects moved by the constant time selection helpers are unchanged
+                {
+                    let mk = |a: SgP<C>, b: SgP<C>| match c.s {
+                        Scheme::Basic => ProofOfKnowledge::<C>::Basic { u: a, v: b },
+                        Scheme::Aug => ProofOfKnowledge::<C>::MessageAugmentation { u: a, v: b },
+                        Scheme::Pop => ProofOfKnowledge::<C>::ProofOfPossession { u: a, v: b },
+                    };
+                    let mkc = |a: SgP<C>| match c.s {
+                        Scheme::Basic => ProofCommitment::<C>::Basic(a),
+                        Scheme::Aug => ProofCommitment::<C>::MessageAugmentation(a),
+                        Scheme::Pop => ProofCommitment::<C>::ProofOfPossession(a),
+                    };
+                    expect_ct_move(o, p, &format!("ProofOfKnowledge<{}>", g), &mk(u, v), &mk(tu, tv));
+                    expect_ct_move(o, p, &format!("ProofCommitment<{}>", g), &mkc(u), &mkc(u + u));
+                    expect_ct_move(o, p, &format!("ProofOfKnowledgeTimestamp<{}>", g), &ProofOfKnowledgeTimestamp::<C> { proof: mk(tu, tv), timestamp: tt }, &ProofOfKnowledgeTimestamp::<C> { proof: mk(u, v), timestamp: tt + 1 });
+                }
                 // another timestamp: reject
                 let r = with_env(vec![], Some(t0), || <C as BlsSignatureProof>::verify_timestamp_proof(tu, tv, pk, tt + 1, None, msg, dst));
                 o.expect(&format!("{}:trait-verify_timestamp_proof-other-time:{}", p, g), matches!(&r, Ok(Err(_))), "reject", verdict(&r));
